@@ -3,6 +3,7 @@ from .common import *
 from spec.protocol_doc import block_named, in_docset
 from .hsm2dongle_basic import ok
 from .hsm2dongle_state import frame_some
+from spec.requests import brothers_value_ok, brothers_ok
 from .ledger_protocol import PROTO, handler_clauses, handler_raises, ci, ALLH, RES, proto_invariant
 
 ADV_RESULT = TUPLE(BOOL_, INT_)
@@ -16,6 +17,17 @@ def block_frame(g, old):
     return monotone(g, old) and g.conn == old.g.conn and g.disc == old.g.disc
 
 
+def no_success_yet(g, command, ops):
+    """the device has not (yet) answered a header chunk with SUCCESS / PARTIAL"""
+    return implies(g.last_op == 4 or g.last_op == 9,
+                   g.last_resp[2] != ops.SUCCESS and (command != 0x10 or g.last_resp[2] != 5))
+
+
+def first_is_init(g, old, blocks, command):
+    """the first APDU of the operation announces the number of blocks (INIT = 2 for both operations)"""
+    return g.log[len(old.g.log)] == apdu_of(command, bytes([2]) + be_bytes(len(blocks), 4))
+
+
 @contract("ledger/hsm2dongle.py", "HSM2Dongle._do_block_operation", serves=["C05", "C03", "C04", "C11"])
 class DoBlockOperation(Contract):
     """carries the loop invariants only: the function is verified inlined into its two callers, so that the
@@ -23,12 +35,16 @@ class DoBlockOperation(Contract):
     helper = True
     loop_locals = {0: dict(response=TUPLE(BOOL_, BYTES_)), 1: dict(response=TUPLE(BOOL_, BYTES_))}
 
-    def inv_blocks(g, old, i, blocks):
-        return block_frame(g, old) and g.nx >= old.g.nx + 1 and 0 <= i and i <= len(blocks) and ok(g)
-    def inv_brothers(g, old, response):
-        return (block_frame(g, old) and g.nx >= old.g.nx + 1 and ok(g)
-                and len(response[1]) >= 3 and response[1] == g.last_resp and g.last_cmd == 0x10)
-    invariants = {0: [inv_blocks], 1: [inv_brothers]}
+    def inv_frame(g, old): return block_frame(g, old) and g.nx >= old.g.nx + 1 and ok(g)
+    def inv_index(i, blocks): return 0 <= i and i <= len(blocks)
+    def inv_init(g, old, blocks, command): return first_is_init(g, old, blocks, command)
+    def inv_no_success(g, command, ops): return no_success_yet(g, command, ops)
+    def inv_response(g, response):
+        # inside a brother list the last exchange is the list metadata (op 7) or a brother chunk (op 9)
+        return (len(response[1]) >= 3 and response[1] == g.last_resp and g.last_cmd == 0x10
+                and (g.last_op == 7 or g.last_op == 9))
+    invariants = {0: [inv_frame, inv_index, inv_init, inv_no_success],
+                  1: [inv_frame, inv_init, inv_response]}     # (inside a brother list the code does not look for success)
 
 
 @contract("ledger/hsm2dongle.py", "HSM2Dongle.advance_blockchain", serves=["C05", "C03", "C04", "C11"])
@@ -43,11 +59,7 @@ class AdvanceBlockchain(Contract):
 
     def validated(blocks, brothers):
         """what _validate_advance_blockchain has established"""
-        return (len(blocks) > 0 and jtag(brothers) == 5 and jlen(brothers) == len(blocks)
-                and forall_int(0, jlen(brothers), lambda i: jtag(jitem(brothers, i)) == 5
-                               and forall_int(0, jlen(jitem(brothers, i)), lambda j: jtag(jitem(jitem(brothers, i), j)) == 4
-                                              and is_hex(jstr(jitem(jitem(brothers, i), j)))
-                                              and len(unhex(jstr(jitem(jitem(brothers, i), j)))) > 0)))
+        return len(blocks) > 0 and brothers_value_ok(brothers, len(blocks))
     @only("C03")
     def memory_bound(blocks): return len(blocks) < 4294967296       # A-MEM
     requires = [validated, memory_bound]
@@ -67,12 +79,24 @@ class AdvanceBlockchain(Contract):
     @only("C05")
     def count_announced_first(blocks, g, old):
         return implies(g.nx > old.g.nx, g.log[len(old.g.log)] == apdu_of(0x10, bytes([2]) + be_bytes(len(blocks), 4)))
-    ensures = [codes, count_announced_first]
+    @only("C05", "C04")
+    def success_whenever_the_device_reports_it(result, g, old):
+        """the firmware reports PARTIAL (5) / SUCCESS (6) in answer to the last chunk of a block header (or of the
+        last brother; inside a brother list the code does not look at the answer's op, so only block headers are
+        covered here - see DESIGN observations)"""
+        return implies(g.nx > old.g.nx and ok(g) and g.last_cmd == 0x10 and g.last_op == 4
+                       and (g.last_resp[2] == 5 or g.last_resp[2] == 6),
+                       result[0] and result[1] == ite(g.last_resp[2] == 6, 1, 2))
+    ensures = [codes, count_announced_first, success_whenever_the_device_reports_it]
 
     def x_some(g, old): return g.nx >= old.g.nx + 1 and g.conn == old.g.conn and g.disc == old.g.disc
     raises = PROPAGATE(x_some, skip=[ERR_RESULT, ERR_DONGLE])
     # HSM2DongleError: a link outcome outside the protocol, or the device never reporting success ("unexpected state")
-    raises[ERR_DONGLE] = Exc(args=[STR_], post=[x_some])
+    def x_device_did_not_report_success(g):
+        return ((classify(g) == K_OTHER or ok(g))
+                and not (ok(g) and g.last_cmd == 0x10 and g.last_op == 4
+                         and (g.last_resp[2] == 5 or g.last_resp[2] == 6)))
+    raises[ERR_DONGLE] = Exc(args=[STR_], post=[x_some, x_device_did_not_report_success])
 
 
 def upd_member(c):
@@ -104,11 +128,21 @@ class UpdateAncestor(Contract):
                             and implies(block_named(False, g.last_op, g.last_sw) == -204, c == -5))
                 and implies(g.nx > old.g.nx, ok(g) or classify(g) == K_ERR) and g.nx >= old.g.nx
                 and g.conn == old.g.conn and g.disc == old.g.disc)
-    ensures = [codes]
+    @only("C05")
+    def count_announced_first(blocks, g, old):
+        return implies(g.nx > old.g.nx, g.log[len(old.g.log)] == apdu_of(0x30, bytes([2]) + be_bytes(len(blocks), 4)))
+    @only("C05", "C04")
+    def success_whenever_the_device_reports_it(result, g, old):
+        return implies(g.nx > old.g.nx and ok(g) and g.last_cmd == 0x30 and g.last_op == 4 and g.last_resp[2] == 5,
+                       result[0] and result[1] == 1)
+    ensures = [codes, count_announced_first, success_whenever_the_device_reports_it]
 
     def x_some(g, old): return g.nx >= old.g.nx + 1 and g.conn == old.g.conn and g.disc == old.g.disc
     raises = PROPAGATE(x_some, skip=[ERR_RESULT, ERR_DONGLE])
-    raises[ERR_DONGLE] = Exc(args=[STR_], post=[x_some])
+    def x_device_did_not_report_success(g):
+        return ((classify(g) == K_OTHER or ok(g))
+                and not (ok(g) and g.last_cmd == 0x30 and g.last_op == 4 and g.last_resp[2] == 5))
+    raises[ERR_DONGLE] = Exc(args=[STR_], post=[x_some, x_device_did_not_report_success])
 
 
 def blocks_validated(request):
@@ -124,15 +158,17 @@ class AdvanceHandler(Contract):
     modifies_self = dict(_comm_issue=BOOL_)
     exception_serves = ("C03", "C04")
 
-    def validated(request): return blocks_validated(request) and jhas(request, "brothers")
+    def validated(request): return blocks_validated(request) and brothers_value_ok(request["brothers"], jlen(request["blocks"])) and jhas(request, "brothers")
     requires = [validated, proto_invariant]
 
     @only("C04", "C05")
     def success_iff_device_succeeded(result, g, old):
         return implies(not ci(old),
                        implies(result[0] == 0, ok(g) and g.last_resp[2] == 6) and implies(result[0] == 1, ok(g) and g.last_resp[2] == 5)
-                       and implies(g.nx > old.g.nx and ok(g) and g.last_cmd == 0x10 and g.last_resp[2] == 6, result[0] == 0)
-                       and implies(g.nx > old.g.nx and ok(g) and g.last_cmd == 0x10 and g.last_resp[2] == 5, result[0] == 1))
+                       and implies(g.nx > old.g.nx and ok(g) and g.last_cmd == 0x10 and g.last_op == 4
+                                   and g.last_resp[2] == 6, result[0] == 0)
+                       and implies(g.nx > old.g.nx and ok(g) and g.last_cmd == 0x10 and g.last_op == 4
+                                   and g.last_resp[2] == 5, result[0] == 1))
     @only("C04")
     def named_causes(result, g, old):
         return implies(not ci(old) and g.nx > old.g.nx and classify(g) == K_ERR,
@@ -156,7 +192,8 @@ class UpdateAncestorHandler(Contract):
     def success_iff_device_succeeded(result, g, old):
         return implies(not ci(old),
                        implies(result[0] == 0, ok(g) and g.last_resp[2] == 5)
-                       and implies(g.nx > old.g.nx and ok(g) and g.last_cmd == 0x30 and g.last_resp[2] == 5, result[0] == 0))
+                       and implies(g.nx > old.g.nx and ok(g) and g.last_cmd == 0x30 and g.last_op == 4
+                                   and g.last_resp[2] == 5, result[0] == 0))
     @only("C04")
     def named_causes(result, g, old):
         return implies(not ci(old) and g.nx > old.g.nx and classify(g) == K_ERR,
